@@ -188,7 +188,7 @@ def xavier_normal_(tensor:Tensor, gain:float=1.0) -> Tensor:
     """
     fan_in, fan_out = _calculate_fan_in_and_fan_out(tensor)
     std = gain * math.sqrt(2.0 / float(fan_in + fan_out))
-    return normal_(tensor, 0, std**2)
+    return normal_(tensor, 0, std)
 
 
 def kaiming_uniform_(tensor:Tensor, a=0, mode='fan_in', nonlinearity='leaky_relu') -> Tensor:
@@ -255,4 +255,4 @@ def kaiming_normal_(tensor:Tensor, a=0, mode='fan_in', nonlinearity='leaky_relu'
     
     gain = calculate_gain(nonlinearity, a)
     std = gain * (1 / math.sqrt(float(fan[mode])))
-    return normal_(tensor, 0, std**2)
+    return normal_(tensor, 0, std)
